@@ -35,6 +35,9 @@ RULE = ('For each generated Config DAG (maybe_fail targets incl. positional-only
         'call-line event in building.py/daglish.py/reraised_exception.py/config.py with an '
         'injected Exception and BaseException; RecursionError depth sweep. Non-trivial: the '
         'fault fired; distinct = (DAG sketch, failing node, shape) resp. (file, line, kind).')
+RULE_ADDITIONS = (' Added by the rounds of seeded changes (DESIGN 9.7): ' +
+                  'no-path:BaseException-subclass, no-path:unsubclassable-class | original escapes unwrapped | known (by design; wrapping is not a safe small change); messages ending in whitespace / CRLF; an exception object that escaped an earlier failed build')
+RULE = RULE + RULE_ADDITIONS
 ASSUMPTIONS = [
     'the path printed after "<root>" follows the documented path grammar (.name, [index], '
     '[key repr]); it is parsed and followed by the harness\'s own parser/follower',
